@@ -19,6 +19,9 @@ sys.path.insert(0, os.path.dirname(HERE))
 from harness import vlib  # noqa: E402
 
 
+C10ENV = {}
+
+
 def main():
     workload = json.load(open(sys.argv[1]))
     forced = set(x for x in sys.argv[3].split(",") if x)
@@ -71,6 +74,21 @@ def main():
                 got = ns.unique_list(Y.make_iterable(c["form"], c["seq"]))
                 exp = L.ref_first_occ(c["seq"])
                 r = {"out": "-@%s;%s" % (L.dots(got), L.dots(sorted(got))), "req": "oset 1 new:0:Z%s" % L.dots(c["seq"]), "fail": None if got == exp and type(got) is list else ["unique-list-first-occurrence", repr(got)]}
+            elif k == "c10":
+                # the operation sequences, executor and line format of the result builder (C10):
+                # both builds are compared with each other AND with its Lean model M-RESULT
+                from harness.props import c10
+
+                if "env" not in C10ENV:
+                    C10ENV["env"] = c10.Env()
+                case = c10.tuplify(c["case"])
+                outs, extras = c10.run_impl(C10ENV["env"], case)
+                c10.check_case(case, outs, extras)  # only for UNSPEC: how far the outputs are determined
+                kk = c10.trunc_for_model(case)
+                if c10.UNSPEC[0] is not None:
+                    kk = min(kk, c10.UNSPEC[0])
+                shown = [o for o in outs[:kk] if o is not None]
+                r = {"out": ";".join(shown), "req": c10.case_line("run", case, kk), "fail": None, "nullfix": True}
             else:
                 r = Y.run_case(c, mods)
         except Exception as e:  # noqa: BLE001
